@@ -1,11 +1,11 @@
 #!/bin/bash
-# checker-only sweep over all seeds: does the seed's own property's check fire? which others?
-for d in /tmp/seed/C*/[123]; do
-  id=$(basename $(dirname $d)); k=$(basename $d)
+# checker-only sweep over the seeded changes in /verif/seeded: does the seed's own property's check fire? which others?
+for d in /verif/seeded/C*-*; do
+  n=$(basename $d); id=${n%%-*}
   [ -f $d/patch.diff ] || continue
   out=$(/verif/tools/trymut.sh $d/patch.diff all 2>&1)
   props=$(echo "$out" | grep -E "^(C[0-9]+) quick" | grep -v " 0 violations" | awk '{print $1}' | tr '\n' ' ')
   own=$(echo "$props" | grep -qw $id && echo DETECTED || echo missed)
   fail=$(echo "$out" | grep -c "PATCH-FAILED\|CHECKER-")
-  echo "$id/$k $own [$props] patchfail=$fail"
+  echo "$n $own [$props] patchfail=$fail"
 done
